@@ -137,7 +137,10 @@ TrCrash == /\ Is("crash")
            /\ UNCHANGED svars /\ pre' = pre /\ exp' = exp
            /\ TLCSet(1, l + 1)
 
-TraceNext == \/ TrCrash \/ TrEvents \/ TrReset \/ TrAdd \/ TrSeen \/ TrRemove \/ TrPurge \/ TrScan
+(* C10: every following operation runs in a newly started process *)
+TrRestart == /\ Is("restart") /\ Restart /\ SnapOK(boxes) /\ Mark
+
+TraceNext == \/ TrRestart \/ TrCrash \/ TrEvents \/ TrReset \/ TrAdd \/ TrSeen \/ TrRemove \/ TrPurge \/ TrScan
              \/ TrGet \/ TrLatest \/ TrList \/ TrVisit \/ TrReopen \/ TrProbe
 
 TraceSpec == TraceInit /\ [][TraceNext]_tvars
